@@ -43,20 +43,17 @@ func (p *Prog) Expand(f *Func, opt ExpandOpt) *Func {
 		opt.Depth = 4
 	}
 	x := &expander{p: p, top: f, info: f.Info(), opt: opt, closures: map[types.Object]*ast.FuncLit{}}
-	x.findClosures(f)
 	cl := &cloner{p: p, info: x.info, objs: map[types.Object]types.Object{}}
 	body := cl.node(f.Body).(*ast.BlockStmt)
-	// the closure table is keyed by objects, which the identity copy preserves; re-point literals to the copies
-	for obj, lit := range x.closures {
-		x.closures[obj] = x.copyOf(body, lit)
-	}
+	x.findClosures(body)
 	if f.Obj != nil {
 		x.stack = append(x.stack, f.Obj)
 		x.results = append(x.results, f.Obj.Type().(*types.Signature).Results())
 	} else if s, ok := x.info.TypeOf(f.Lit).(*types.Signature); ok {
 		x.results = append(x.results, s.Results())
 	}
-	body.List = x.block(body.List, 0)
+	x.topWritten = x.writtenObjs(f.Body)
+	body.List = x.blockT(body.List, 0, true)
 	v := &Func{P: p, Obj: f.Obj, Decl: f.Decl, Lit: f.Lit, Parent: f.Parent, Pkg: f.Pkg, Body: body, Type: f.Type, name: f.name, View: true, Base: f, Inlined: x.inlined, InlinedCalls: x.inlinedCalls}
 	p.indexLits(v, v, body, false)
 	if p.views == nil {
@@ -95,42 +92,71 @@ type expander struct {
 	results  []*types.Tuple // result tuples of the functions enclosing the statement being rewritten
 
 	inlinedCalls map[ast.Node]bool // loaded call expressions that were expanded
+	tail         bool              // the statement being rewritten is the last of a function body
+	topWritten   map[types.Object]bool
 }
 
-func (x *expander) findClosures(f *Func) {
+// findClosures records the variables of body that are defined exactly once, by a function literal.
+func (x *expander) findClosures(body ast.Node) {
 	count := map[types.Object]int{}
-	for _, w := range f.WritesIn(f.Body, true) {
-		id, ok := ast.Unparen(w.LHS).(*ast.Ident)
+	cand := map[types.Object]*ast.FuncLit{}
+	note := func(lhs ast.Expr, rhs ast.Expr) {
+		id, ok := ast.Unparen(lhs).(*ast.Ident)
 		if !ok {
-			continue
+			return
 		}
-		obj := f.ObjOf(id)
+		obj := x.objOf(id)
 		if obj == nil {
-			continue
+			return
 		}
 		count[obj]++
-		if w.RHS != nil {
-			if lit, ok := ast.Unparen(w.RHS).(*ast.FuncLit); ok {
-				x.closures[obj] = lit
+		if rhs != nil {
+			if lit, ok := ast.Unparen(rhs).(*ast.FuncLit); ok {
+				cand[obj] = lit
 			}
 		}
 	}
-	for obj := range x.closures {
-		if count[obj] != 1 {
-			delete(x.closures, obj)
+	ast.Inspect(body, func(n ast.Node) bool {
+		switch t := n.(type) {
+		case *ast.AssignStmt:
+			for i, l := range t.Lhs {
+				var r ast.Expr
+				if len(t.Rhs) == len(t.Lhs) {
+					r = t.Rhs[i]
+				}
+				note(l, r)
+			}
+		case *ast.ValueSpec:
+			for i, nm := range t.Names {
+				var r ast.Expr
+				if len(t.Values) == len(t.Names) {
+					r = t.Values[i]
+				}
+				if r != nil {
+					note(nm, r)
+				}
+			}
+		case *ast.IncDecStmt:
+			note(t.X, nil)
+		case *ast.RangeStmt:
+			if t.Key != nil {
+				note(t.Key, nil)
+			}
+			if t.Value != nil {
+				note(t.Value, nil)
+			}
+		case *ast.UnaryExpr:
+			if t.Op == token.AND {
+				note(t.X, nil)
+			}
+		}
+		return true
+	})
+	for obj, lit := range cand {
+		if count[obj] == 1 {
+			x.closures[obj] = lit
 		}
 	}
-}
-
-func (x *expander) copyOf(root ast.Node, orig *ast.FuncLit) *ast.FuncLit {
-	var out *ast.FuncLit
-	ast.Inspect(root, func(n ast.Node) bool {
-		if l, ok := n.(*ast.FuncLit); ok && out == nil && x.p.OrigNode(l) == ast.Node(orig) {
-			out = l
-		}
-		return out == nil
-	})
-	return out
 }
 
 func (x *expander) label(kind string) string {
@@ -148,6 +174,15 @@ func gotoStmt(name string, pos token.Pos) ast.Stmt {
 
 // block rewrites a statement list.
 func (x *expander) block(list []ast.Stmt, depth int) []ast.Stmt {
+	return x.blockT(list, depth, false)
+}
+
+// blockT rewrites a statement list; fnBody marks the top-level list of a
+// function (literal) body, whose last statement is in tail position: a callee
+// expanded there may defer, because its deferred calls run at the same point
+// relative to everything else (after the callee's body, before the deferred
+// calls registered earlier by the enclosing function).
+func (x *expander) blockT(list []ast.Stmt, depth int, fnBody bool) []ast.Stmt {
 	var out []ast.Stmt
 	for i := 0; i < len(list); i++ {
 		s := list[i]
@@ -155,7 +190,9 @@ func (x *expander) block(list []ast.Stmt, depth int) []ast.Stmt {
 		if i+1 < len(list) {
 			next = list[i+1]
 		}
+		x.tail = fnBody && i == len(list)-1
 		out = append(out, x.stmt(s, next, depth)...)
+		x.tail = false
 		if x.after != nil {
 			if extra, ok := x.after[s]; ok {
 				out = append(out, extra...)
@@ -169,11 +206,15 @@ func (x *expander) block(list []ast.Stmt, depth int) []ast.Stmt {
 // stmt rewrites one statement (possibly into several).
 func (x *expander) stmt(s ast.Stmt, next ast.Stmt, depth int) []ast.Stmt {
 	var pre []ast.Stmt
+	tail := x.tail
+	x.tail = false
 	switch t := s.(type) {
+	case *ast.DeferStmt:
+		x.litForm(&t.Call, depth)
 	case *ast.ExprStmt:
 		if call, ok := ast.Unparen(t.X).(*ast.CallExpr); ok {
 			pre = x.hoistArgs(call, depth)
-			if repl, ok := x.inline(call, &callCtx{kind: ctxDiscard, pos: s.Pos()}, depth); ok {
+			if repl, ok := x.inline(call, &callCtx{kind: ctxDiscard, pos: s.Pos(), tail: tail}, depth); ok {
 				return append(pre, repl...)
 			}
 		}
@@ -190,7 +231,7 @@ func (x *expander) stmt(s ast.Stmt, next ast.Stmt, depth int) []ast.Stmt {
 		if len(t.Results) == 1 {
 			if call, ok := ast.Unparen(t.Results[0]).(*ast.CallExpr); ok {
 				pre = x.hoistArgs(call, depth)
-				if repl, ok := x.inline(call, &callCtx{kind: ctxReturn, pos: s.Pos()}, depth); ok {
+				if repl, ok := x.inline(call, &callCtx{kind: ctxReturn, pos: s.Pos(), tail: true}, depth); ok {
 					return append(pre, repl...)
 				}
 			}
@@ -272,7 +313,7 @@ func (x *expander) descend(s ast.Node, depth int) {
 		case *ast.FuncLit:
 			if s, ok := x.info.TypeOf(t).(*types.Signature); ok {
 				x.results = append(x.results, s.Results())
-				t.Body.List = x.block(t.Body.List, depth)
+				t.Body.List = x.blockT(t.Body.List, depth, true)
 				x.results = x.results[:len(x.results)-1]
 			}
 			return false
@@ -339,6 +380,7 @@ type callCtx struct {
 	ifStmt *ast.IfStmt
 	neg    bool
 	pos    token.Pos
+	tail   bool // the call's completion is the enclosing function's completion
 }
 
 // callee describes what a call expands to.
@@ -351,6 +393,10 @@ type callee struct {
 
 // target resolves call to an expandable callee.
 func (x *expander) target(call *ast.CallExpr, depth int) (callee, bool) {
+	return x.targetD(call, depth, false)
+}
+
+func (x *expander) targetD(call *ast.CallExpr, depth int, allowDefer bool) (callee, bool) {
 	if depth >= x.opt.Depth {
 		return callee{}, false
 	}
@@ -375,7 +421,7 @@ func (x *expander) target(call *ast.CallExpr, depth int) (callee, bool) {
 		}
 		orig, _ := x.p.OrigNode(lit).(*ast.FuncLit)
 		fn := x.p.byLit[orig]
-		if fn == nil || !x.eligibleBody(fn, call) {
+		if fn == nil || !x.eligibleBody(fn, call, allowDefer) {
 			return callee{}, false
 		}
 		return callee{fn: fn, lit: lit}, true
@@ -393,7 +439,7 @@ func (x *expander) target(call *ast.CallExpr, depth int) (callee, bool) {
 		}
 	}
 	fn := x.p.byObj[obj]
-	if fn == nil || !x.eligibleBody(fn, call) {
+	if fn == nil || !x.eligibleBody(fn, call, allowDefer) {
 		return callee{}, false
 	}
 	sig := obj.Type().(*types.Signature)
@@ -437,7 +483,7 @@ func calleeOf(info *types.Info, call *ast.CallExpr) (*types.Func, bool) {
 	return fn.Origin(), true
 }
 
-func (x *expander) eligibleBody(fn *Func, call *ast.CallExpr) bool {
+func (x *expander) eligibleBody(fn *Func, call *ast.CallExpr, allowDefer bool) bool {
 	sig, _ := x.info.TypeOf(call.Fun).(*types.Signature)
 	if sig == nil || sig.Variadic() {
 		return false
@@ -449,7 +495,9 @@ func (x *expander) eligibleBody(fn *Func, call *ast.CallExpr) bool {
 	Walk(fn.Body, false, func(n ast.Node) {
 		switch t := n.(type) {
 		case *ast.DeferStmt:
-			ok = false
+			if !allowDefer {
+				ok = false
+			}
 		case *ast.CallExpr:
 			if id, isID := t.Fun.(*ast.Ident); isID && id.Name == "recover" {
 				if _, b := fn.Info().Uses[id].(*types.Builtin); b {
@@ -512,7 +560,7 @@ func (x *expander) hoistArgs(call *ast.CallExpr, depth int) []ast.Stmt {
 
 // inline expands call in context ctx.
 func (x *expander) inline(call *ast.CallExpr, ctx *callCtx, depth int) ([]ast.Stmt, bool) {
-	c, ok := x.target(call, depth)
+	c, ok := x.targetD(call, depth, ctx.tail && (ctx.kind == ctxDiscard || ctx.kind == ctxReturn))
 	if !ok {
 		return nil, false
 	}
@@ -581,6 +629,10 @@ func (x *expander) inline(call *ast.CallExpr, ctx *callCtx, depth int) ([]ast.St
 	}
 	srcBody := fn.Body
 	srcType := fn.Type
+	if c.lit != nil {
+		// the copy inside the view: its captured variables are the view's (renamed) ones
+		region, srcBody, srcType = c.lit, c.lit.Body, c.lit.Type
+	}
 	lo, hi := region.Pos(), region.End()
 	off := x.p.shiftFile(srcBody.Pos())
 	cl := &cloner{p: x.p, info: x.info, off: off, objs: map[types.Object]types.Object{}, subst: map[types.Object]ast.Expr{},
@@ -649,6 +701,7 @@ func (x *expander) inline(call *ast.CallExpr, ctx *callCtx, depth int) ([]ast.St
 	}
 
 	body := cl.node(srcBody).(*ast.BlockStmt)
+	x.findClosures(body)
 	x.seq++
 	suffix := fmt.Sprintf("_i%d", x.seq)
 	Walk(body, false, func(n ast.Node) {
@@ -870,7 +923,7 @@ func (x *expander) inline(call *ast.CallExpr, ctx *callCtx, depth int) ([]ast.St
 	} else {
 		x.litStack = append(x.litStack, c.lit)
 	}
-	body.List = x.block(body.List, depth+1)
+	body.List = x.blockT(body.List, depth+1, ctx.tail && (ctx.kind == ctxDiscard || ctx.kind == ctxReturn))
 	if c.obj != nil {
 		x.stack = x.stack[:len(x.stack)-1]
 	} else {
@@ -990,6 +1043,15 @@ func (x *expander) substitutable(e ast.Expr) bool {
 			return !o.IsField()
 		}
 		return false
+	case *ast.UnaryExpr:
+		// the address of a variable (or of a field reached without indirection) is stable
+		if t.Op != token.AND {
+			return false
+		}
+		if _, isLit := ast.Unparen(t.X).(*ast.CompositeLit); isLit {
+			return false
+		}
+		return x.substitutable(t.X)
 	case *ast.SelectorExpr:
 		s := x.info.Selections[t]
 		if s == nil || s.Kind() != types.FieldVal || s.Indirect() {
@@ -1229,4 +1291,49 @@ func (vs *ViewSet) Of(f *Func) *Func {
 		return v
 	}
 	return f
+}
+
+// litForm rewrites `defer h(a, b)` into `defer func() { h(a, b) }()`
+// when h would be expanded and every operand is a variable that is assigned
+// only once in the function (so reading it when the closure runs gives the
+// value it had when the statement executed). The literal's body is then
+// expanded like any other.
+func (x *expander) litForm(callp **ast.CallExpr, depth int) {
+	call := *callp
+	if _, isLit := ast.Unparen(call.Fun).(*ast.FuncLit); isLit {
+		return
+	}
+	if _, ok := x.targetD(call, depth, true); !ok {
+		return
+	}
+	stable := func(e ast.Expr) bool {
+		if !x.substitutable(e) {
+			return false
+		}
+		ok := true
+		ast.Inspect(e, func(n ast.Node) bool {
+			if id, isID := n.(*ast.Ident); isID {
+				if o, isVar := x.info.Uses[id].(*types.Var); isVar && !o.IsField() && x.topWritten[x.p.OrigObj(o)] {
+					ok = false
+				}
+			}
+			return ok
+		})
+		return ok
+	}
+	if sel, ok := ast.Unparen(call.Fun).(*ast.SelectorExpr); ok && x.info.Selections[sel] != nil && !stable(sel.X) {
+		return
+	}
+	for _, a := range call.Args {
+		if !stable(a) {
+			return
+		}
+	}
+	at := call.Pos()
+	lit := &ast.FuncLit{
+		Type: &ast.FuncType{Func: at, Params: &ast.FieldList{Opening: at, Closing: at}},
+		Body: &ast.BlockStmt{Lbrace: at, List: []ast.Stmt{&ast.ExprStmt{X: call}}, Rbrace: call.End()},
+	}
+	x.info.Types[lit] = types.TypeAndValue{Type: types.NewSignatureType(nil, nil, nil, nil, nil, false)}
+	*callp = &ast.CallExpr{Fun: lit, Lparen: at, Rparen: call.End()}
 }
